@@ -81,9 +81,80 @@ def cases(tier, inst):
                 if t is not None and Q.depth(t) == 2 and len(h) == 3 and hash((t, h)) % 4:
                     continue
                 yield (style, t, h)
+    # two queries over ONE variable whose domain is the one-shot iterator, both result iterators alive and advanced
+    # alternately in every order (then drained): each sees all its qualifying elements, nothing is pulled twice or ahead
+    reps = REPRESENTATIVE_8 if thorough else REPRESENTATIVE_8[:5]
+    for t1 in reps:
+        for t2 in reps + [None]:
+            for sched in sequences("12", 5 if thorough else 4, 1):
+                yield ("@interleaved", t1, t2, "".join(sched))
+
+
+def run_interleaved(case, inst):
+    _, t1, t2, sched = case
+
+    def body():
+        from entity_query_language import let, an, entity
+        world = build_world(GRID, inst)
+        items = world["D"]
+        it = LoggingIter(list(items))
+        ref = Q.Ref(world, inst)
+        quals = [[o for o in items if t is None or ref.holds(t, {"x": o})] for t in (t1, t2)]
+        pos = {id(o): i for i, o in enumerate(items)}
+        b = Q.Builder(world, inst)
+        with symbolic_mode():
+            b.env["x"] = let(W.Item, it)
+            x = b.env["x"]
+            qs = [an(entity(x, b.cond(t))) if t is not None else an(entity(x)) for t in (t1, t2)]
+        if it.pulled:
+            return ("work-at-build", 0, None, len(it.pulled), 0), 0
+        gens = [q.evaluate() for q in qs]
+        if it.pulled:
+            return ("work-before-first-next", 0, None, len(it.pulled), 0), 0
+        nxt = [0, 0]
+        done = [False, False]
+        trans = 0
+        steps = [int(c) - 1 for c in sched] + [0] * (len(items) + 1) + [1] * (len(items) + 1)     # then drain both
+        for si, k in enumerate(steps):
+            if done[k]:
+                continue
+            before = len(it.pulled)
+            trans += 1
+            try:
+                r = next(gens[k])
+            except StopIteration:
+                done[k] = True
+                if nxt[k] != len(quals[k]):
+                    return ("missing-results", si, f"N{k + 1}", nxt[k], len(quals[k])), trans
+                if len(it.pulled) != len(items):
+                    return ("exhausted-without-reading-the-domain", si, f"N{k + 1}", len(it.pulled), len(items)), trans
+                continue
+            except Exception as e:
+                return ("next-raised", si, f"N{k + 1}", exc_obs(e), "a result"), trans
+            if nxt[k] >= len(quals[k]) or r is not quals[k][nxt[k]]:
+                return ("wrong-result", si, f"N{k + 1}", Q.norm(r),
+                        Q.norm(quals[k][nxt[k]]) if nxt[k] < len(quals[k]) else "StopIteration"), trans
+            exp_pulled = max(before, pos[id(r)] + 1)
+            if len(it.pulled) != exp_pulled:
+                return ("pulled-ahead" if len(it.pulled) > exp_pulled else "pulled-less", si, f"N{k + 1}",
+                        len(it.pulled), exp_pulled), trans
+            nxt[k] += 1
+        if len(set(map(id, it.pulled))) != len(it.pulled):
+            return ("pulled-twice", len(steps), None, len(it.pulled), len(set(map(id, it.pulled)))), trans
+        return None, trans
+
+    bad, trans = run_isolated(body)
+    res = {"ok": bad is None, "nontrivial": "1" in sched and "2" in sched, "transitions": trans,
+           "tags": ["interleaved_iterators", f"len={len(sched)}"], "outcome": "interleaved"}
+    if bad is not None:
+        kind, si, op, got, exp = bad
+        res.update(sig=f"interleaved:{kind}/{op}", obs=(f"step {si + 1} of schedule {sched} (+ drain)", got), exp=exp)
+    return res
 
 
 def run_case(case, inst):
+    if case[0] == "@interleaved":
+        return run_interleaved(case, inst)
     style, tree, hist = case
     q = ("Q", "an", "entity", X, (tree,) if tree else (), ())
 
@@ -174,6 +245,14 @@ def run_case(case, inst):
 
 
 def describe(case, inst):
+    if case[0] == "@interleaved":
+        _, t1, t2, sched = case
+        c2 = (", " + Q.up_cond(t2, inst)) if t2 else ""
+        return (Q.up_world(GRID, inst) + "\nit = LoggingIter(D)   # one-shot, records every element handed out\n"
+                f"with symbolic_mode(): x = let(Item, it); q1 = an(entity(x, {Q.up_cond(t1, inst)})); q2 = an(entity(x{c2}))\n"
+                f"g1 = q1.evaluate(); g2 = q2.evaluate(); schedule {sched}: digit i = next(g<i>); then g1 and g2 are drained\n"
+                "# expected: each iterator delivers its qualifying elements in order; after every result exactly the prefix "
+                "needed so far has been pulled; nothing is pulled twice")
     style, tree, hist = case
     decl = "x = let(Item, it)" if style == "let" else "x = Item(From(it))   # it also yields 'junk<i>' strings after every third item"
     cond = (", " + Q.up_cond(tree, inst)) if tree else ""
